@@ -15,6 +15,7 @@ RULE = ("Mixtures of 1-6 distinct substances (curated formulas plus generated on
         "x=p/sum p, X=p m/sum p m; mass mode X=p/sum p, x=(p/m)/sum(p/m); 'sum' row = 100; scaling all p by c changes "
         "nothing; the material rebuilt from its reported X in mass mode reports the same x and X. Same for "
         "Substance.data_composite with atom counts. Non-trivial: >=2 components with distinct masses. "
+        "Round 4: amounts in exponent notation, nucleons, Substance(proportion=p) alone and added to a Material. "
         "Distinct = distinct case JSON.")
 ASSUMPTIONS = ["relative tolerance 1e-9 on fractions", "proportions are written with at most 6 significant decimal digits"]
 NT_FLOOR = 0.4
